@@ -151,6 +151,9 @@ pub struct SzxOptions {
     pub zlib_exact: Option<(usize, usize)>,
     /// header byte 7 (chFlags; bit 0 = "alternate timings" of the writing emulator's model)
     pub hdr_flags: u8,
+    /// Z80R.chHoldIntReqCycles as the writer left it (how long its INT line had been held; a reader has its own
+    /// interrupt timing and the frame position to go by)
+    pub hold_int: u8,
 }
 
 fn adler32(data: &[u8]) -> u32 {
@@ -215,7 +218,7 @@ pub fn write_szx(s: &SnapState, opt: &SzxOptions) -> Vec<u8> {
     z.push(c.iff2 as u8);
     z.push(c.im);
     z.extend_from_slice(&s.frame_t.to_le_bytes());
-    z.push(0); // chHoldIntReqCycles
+    z.push(opt.hold_int); // chHoldIntReqCycles
     let mut flags = 0u8;
     if s.ei_last {
         flags |= 1;
